@@ -25,10 +25,32 @@ type Runner struct {
 	O    *hlib.Out
 	Prop string // "C12" or "C02"
 	Stat map[string]int
+	// Matrix: native column type -> "source Go type -> target Go type" (or "spec -> target") -> number of
+	// decodes that succeeded and were compared; printed into the evidence as the coverage matrix
+	Matrix map[string]map[string]int
+}
+
+func (rn *Runner) count(t *Ty, src string, g *GTy) {
+	if t.K != "native" {
+		return
+	}
+	name := gocqlType(t.ID).String()
+	if rn.Matrix[name] == nil {
+		rn.Matrix[name] = map[string]int{}
+	}
+	rn.Matrix[name][src+" -> "+g.Coq()]++
+}
+
+// SrcName: the Go type of a source value, for the coverage matrix
+func SrcName(v *Val) string {
+	if v.K == "nil" || v.K == "unset" {
+		return v.K
+	}
+	return v.T.RType().String()
 }
 
 func NewRunner(o *hlib.Out, prop string) *Runner {
-	return &Runner{O: o, Prop: prop, Stat: map[string]int{}}
+	return &Runner{O: o, Prop: prop, Stat: map[string]int{}, Matrix: map[string]map[string]int{}}
 }
 
 func signedMaxOfColumn(id int) *big.Int {
@@ -646,6 +668,7 @@ func (rn *Runner) DecodeCase(kind string, pv int, t *Ty, data []byte, g *GTy, c 
 		}
 		return res, cls
 	}
+	rn.count(t, "spec", g)
 	dc, _, dok := DenoteDecoded(t, res)
 	if !dok {
 		rn.Stat["decoded-no-denotation"]++
@@ -875,6 +898,7 @@ func (rn *Runner) RoundTrip(kind string, pv int, t *Ty, v *Val, targets []*GTy) 
 			}
 			continue
 		}
+		rn.count(t, SrcName(v), g)
 		dc, _, dok := DenoteDecoded(t, res)
 		if !dok {
 			rn.Stat["rt-decoded-no-denotation"]++
